@@ -986,8 +986,13 @@ def gen_sweepval_case(rng, world):
             continue
         vals.append(t)
         exp.append(tag(d))
+    dask_ = rng.random() < 0.4
+    if dask_:      # keep the coordinate labels of one type (all texts): assembling mixed str / number labels is not C08's subject
+        vals = [v if isinstance(v, str) else repr(v) for v in vals]
+        keep = [i for i, v in enumerate(vals) if v not in vals[:i]]
+        vals, exp = [vals[i] for i in keep], [exp[i] for i in keep]
     return {"stream": "sweepval", "world": world, "key": ["pipeline", g, m["name"], "arguments", a], "values": vals, "expected": exp,
-            "mode": rng.choice(["product", "sequential"]), "dask": rng.random() < 0.4}
+            "mode": rng.choice(["product", "sequential"]), "dask": dask_}
 
 
 def run_sweepval_impl(case):
@@ -1020,9 +1025,13 @@ def sweepval_predicate(case, impl):
 
     want = [json.loads(json.dumps(_canon_val(untag(t)))) for t in case["expected"]]
     for path, got in impl.items():
-        if got["run"] != "ok":
-            return "sweep-value:run-failed:" + path, "sweep of %r over %r failed: %s %s" % (".".join(case["key"]), case["values"], got["run"], got["msg"])
         rec = got["received"]
+        if got["run"] != "ok":
+            # an error raised while the results are assembled, after every pipeline has run with the right values, is not about
+            # keys or conversion (e.g. xarray refusing a coordinate of mixed str / int labels): judged on what the model received
+            if path == "seq" and rec == want:
+                continue
+            return "sweep-value:run-failed:" + path, "sweep of %r over %r failed: %s %s" % (".".join(case["key"]), case["values"], got["run"], got["msg"])
         bad = rec != want if path == "seq" else (sorted(map(json.dumps, rec[1:] if len(rec) > len(want) else rec)) != sorted(map(json.dumps, want)))
         if bad:
             return ("sweep-value:wrong-conversion:" + path, "sweep values %r denote %s but the model received %s (%s observation, %s mode)"
@@ -1052,7 +1061,7 @@ def gen_calvars_case(rng, world, proc):
     xs = []
     for i, (k, w) in enumerate(vars_):
         for j in range(w or 1):
-            xs.append(0.125 * (len(xs) + 1) if k[-1] == "quantum_efficiency" else 100.0 + 7.5 * len(xs))
+            xs.append(0.03125 * (len(xs) + 1) if k[-1] == "quantum_efficiency" else 100.0 + 7.5 * len(xs))
     return {"stream": "calvars", "world": world, "vars": vars_, "xs": [x.hex() for x in xs], "probes": keys}
 
 
@@ -1589,6 +1598,8 @@ def body(ck: common.Check):
         impl = run_sweepval_impl(c)
         ck.case({kk: c[kk] for kk in ("world", "key", "values", "mode", "dask")}, nontrivial=True, stream="sweepval")
         ck.count("sweepval:mode=%s dask=%s" % (c["mode"], c["dask"]))
+        for path_, got_ in impl.items():
+            ck.count("sweepval:run[%s]=%s" % (path_, got_["run"]))
         ck.count("sweepval:quoted", sum(1 for v in c["values"] if isinstance(v, str) and v[:1] in "'\""))
         why = sweepval_predicate(c, impl)
         if why is not None:
